@@ -286,14 +286,14 @@ func (f fieldGroupGenerator) DefineDefaultConstructor(g Generator) error {
 		// pre-populating any fields with defined default values. 
 		func Default_<.Name>() *<.Name> {
 			<- $v := newVar "v" ->
-			var v <.Name>
+			var <$v> <.Name>
 			<- range .Fields ->
 				<- $fname := goName . ->
 				<- if isNotNil .Default>
 					<$v>.<$fname> = <constantValuePtr .Default .Type>
 				<- end ->
 			<end>
-			return &v
+			return &<$v>
 		}
 		`, f, TemplateFunc("constantValuePtr", ConstantValuePtr))
 }
